@@ -19,6 +19,7 @@ func init() {
 }
 
 func runC36(c *Ctx) {
+	sweepC36(c)
 	// ---- (a) reply gating
 	for _, spec := range []struct{ fn, flag, ch string }{
 		{"(*mux).handleGlobalPacket", "globalSentPending", "globalResponses"},
